@@ -98,6 +98,7 @@ func RunE1(c *Ctx, prop string, obs []Ob) {
 		}
 		obs = append(obs, Ob{ID: "E1.guarantee", Fn: g.Fn, P: g.P, Kind: "ret ok", Req: req, Why: "callers assume these facts on the success edge of " + g.Fn})
 	}
+	obs = append(obs, leafObs(prop)...)
 	obs = append(obs, e1Controls()...)
 	for _, ob := range obs {
 		evalOb(c, e, ob)
